@@ -28,10 +28,11 @@ const (
 	vpClsEphemeral
 	vpClsAddr
 	vpClsAddrNoD
+	vpClsAddrBareD // tags [["d"],["d",x]]: the first d tag counts (d = "")
 	vpNumCls
 )
 
-var vpClsKind = [...]int64{1, 5, 0, 20000, 30000, 30000}
+var vpClsKind = [...]int64{1, 5, 0, 20000, 30000, 30000, 30000}
 
 type vpHist struct {
 	n     int
@@ -109,6 +110,8 @@ func (h *vpHist) next(i int) *Event {
 		}
 	case vpClsAddr:
 		e.Tags = append(e.Tags, Tag{"d", h.d[i]})
+	case vpClsAddrBareD:
+		e.Tags = append(e.Tags, Tag{"d"}, Tag{"d", h.d[i]})
 	}
 	h.cls[i] = k
 	h.evs[i] = e
@@ -418,6 +421,28 @@ func vpH_C03_query() {
 	got := c.Find(fs)
 	specQuery("C03", retained, fs, got)
 	vpNoteInt64("n", int64(len(got)))
+	// queries are read-only: the retained set is unchanged, and a later query - here
+	// every single condition of the first filter on its own - is still answered per spec
+	vpAssert(vpSameSet(retained, c.Find([]*ReqFilter{{}})), "C03.query-does-not-change-the-store")
+	f := fs[0]
+	var singles []*ReqFilter
+	if f.IDs != nil {
+		singles = append(singles, &ReqFilter{IDs: f.IDs})
+	}
+	if f.Authors != nil {
+		singles = append(singles, &ReqFilter{Authors: f.Authors})
+	}
+	if f.Kinds != nil {
+		singles = append(singles, &ReqFilter{Kinds: f.Kinds})
+	}
+	if len(f.Tags) > 0 {
+		singles = append(singles, &ReqFilter{Tags: f.Tags})
+	}
+	if len(singles) > 1 {
+		for _, sf := range singles {
+			specQuery("C03.after-query", retained, []*ReqFilter{sf}, c.Find([]*ReqFilter{sf}))
+		}
+	}
 	vpReach("end")
 }
 
